@@ -31,6 +31,11 @@ PARTIAL = [
     "same partition values' as an explicit hypothesis (discharged by C01_optimize_sound and C14_task on the modelled fragment)",
     "what the optimiser later does to the imported node is covered by the generic rules (FromGraph is a plain IO "
     "expression; FromDelayed is PartitionsFiltered: C11) and by the support search, not by a C17 theorem",
+    "NOT transparent, kept visible by the support probe `object_string_meta` (open finding D97): when the "
+    "meta at the cut has object-dtype string columns (e.g. after map_partitions) the legacy collection behind `to_delayed` / "
+    "`to_legacy_dataframe` appends a `to_pyarrow_string` layer — Delayed keys are then that layer's keys, partitions come back as "
+    "`string`, `from_delayed(x.to_delayed(), meta=x._meta)` raises 'Metadata mismatch'. The model (keys = output keys of "
+    "x.optimize()) and the families cover metas without such columns",
     "names: `_name` prefixes (`key_split(state._name)`, `fromdelayed-`/prefix) are compared on real objects, uniqueness of the "
     "tokens is C08",
 ]
@@ -91,9 +96,10 @@ def _cut(mid, how):
 
     if how == "persist":
         return mid.persist()
-    if how in ("delayed", "delayed_nv"):
+    if how in ("delayed", "delayed_nv", "delayed_nog"):
         divs = mid.divisions if mid.known_divisions else None
-        return dx.from_delayed(mid.to_delayed(), meta=mid._meta, divisions=divs, verify_meta=(how == "delayed"))
+        return dx.from_delayed(mid.to_delayed(optimize_graph=(how != "delayed_nog")), meta=mid._meta, divisions=divs,
+                               verify_meta=(how != "delayed_nv"))
     if how == "legacy":
         return dx.from_legacy_dataframe(mid.to_legacy_dataframe())
     raise ValueError(how)
@@ -222,7 +228,7 @@ def _cases(ctx):
     for (h, t, tn) in chains:
         if not _legal(h, t, tn, ops, terms):
             continue
-        for how in ("persist", "delayed", "delayed_nv", "legacy"):
+        for how in ("persist", "delayed", "delayed_nv", "delayed_nog", "legacy"):
             for cut in (1, 2):
                 cases.append({"head": h, "tail": t, "term": tn, "how": how, "cut": cut, "layout": 0})
     ctx.rng.shuffle(cases)
@@ -362,8 +368,9 @@ def _imported(n, keys, prefix="imp"):
     (and, for i > 0, the previous derived task), selected by `keys` — everything else is unreachable"""
     import dask_expr as dx
 
-    meta = _pdf(0).iloc[:0]
-    layer = {("x", i): _pdf(2) for i in range(n)}
+    # (no object-dtype column: the legacy `_Frame.__init__` would append a `to_pyarrow_string` layer — see `_string_probe`)
+    meta = _pdf(0)[["a", "b"]].iloc[:0]
+    layer = {("x", i): _pdf(2)[["a", "b"]] for i in range(n)}
     for i in range(n):
         layer[("y", i)] = (_fn_inc, ("x", i)) if i == 0 else (_second, ("x", i), ("y", i - 1))
     return dx.from_graph(layer, meta, (None,) * (len(keys) + 1), [("y", k) for k in keys], prefix)
@@ -439,10 +446,19 @@ def fam_persist(ctx):
     for n in range(1, 7):
         pool = _pool(ctx, n) + [("scalar", dx.from_pandas(_pdf(), npartitions=n).a.sum())]
         for label, x in pool:
-            for fuse in ((True,) if ctx.quick else (True, False)):
-                state = x.optimize(fuse=fuse)
-                skeys = list(state.__dask_keys__())
-                p = x.persist(fuse=fuse)
+            for fuse in ((True, "dask.persist") if ctx.quick else (True, False, "dask.persist")):
+                if fuse == "dask.persist":
+                    # `dask.persist(x)` reaches `__dask_postpersist__` of the collection as written: the state is its lowered plan
+                    import dask
+                    from dask_expr import new_collection
+
+                    state = new_collection(x.expr.lower_completely())
+                    skeys = list(state.__dask_keys__())
+                    (p,) = dask.persist(x)
+                else:
+                    state = x.optimize(fuse=fuse)
+                    skeys = list(state.__dask_keys__())
+                    p = x.persist(fuse=fuse)
                 e = p.expr
                 ids = {k: i for i, k in enumerate(skeys)}
                 lines = set()
@@ -573,12 +589,17 @@ def fam_legacy(ctx):
     for n in range(1, 7):
         for label, x in _pool(ctx, n):
             xo, low, okeys = _lower_of(x)
-            for opt in (True, False):
+            def one(opt):
+                # in a function of its own: the culled and the unculled import have the same `_name` (a HighLevelGraph is
+                # tokenised by its layer names), so while one of them is alive `Expr.__new__` hands it out for the other
                 r = dx.from_legacy_dataframe(x.to_legacy_dataframe(), optimize=opt)
                 e = r.expr
                 ok = (type(e) is FromGraph and list(e.operand("keys")) == okeys and e.operand("name_prefix") == key_split(xo._name)
                       and type(r) is type(x))
-                code.append(_fg_text(e, low) + f" ; operands={int(ok)}")
+                return _fg_text(e, low) + f" ; operands={int(ok)}"
+
+            for opt in (True, False):
+                code.append(one(opt))
                 reqs.append(f"boundary legacy g={low.listing()} outs={','.join(str(low.ids[k]) for k in okeys)} "
                             f"divs={','.join('N' if d is None else str(int(d)) for d in xo.divisions)} opt={int(opt)}")
                 inputs.append({"n": n, "x": label, "optimize": opt})
@@ -660,10 +681,82 @@ def families(ctx):
     return [fam_fromgraph, fam_fromgraph_struct, fam_persist, fam_to_delayed, fam_from_delayed, fam_legacy, fam_check_meta]
 
 
+# --------------------------------------------------------------------------- probe: object-dtype string columns at the cut
+#
+# `to_delayed` and `to_legacy_dataframe` go through a legacy `dask.dataframe` collection; its constructor appends a
+# `to_pyarrow_string` layer when the meta has object-dtype string columns (dask's `dataframe.convert-string`).  Such a
+# meta arises e.g. from `map_partitions`.  The partitions handed out then have another dtype than the collection that
+# was cut declares and computes: `from_delayed(x.to_delayed(), meta=x._meta)` raises "Metadata mismatch" (verify_meta
+# is the default), without verification the data silently disagrees with the declared schema, the legacy round trip
+# changes the schema.  The vetted tables have no object columns, so the chain search never meets this; the probe keeps
+# it visible.  It becomes a reported failure as soon as known_findings.json carries an entry with this signature
+# (open -> KNOWN-FINDING, fixed -> a regression is a VIOLATION); until then it is printed as a NOTE and counted.
+
+_PROBE_SIG = {"kind": "cut-dtype", "cause": "object-string meta converted by the legacy collection"}
+
+
+def run_probe(case):
+    import dask_expr as dx
+
+    def build():
+        x = dx.from_pandas(e2e.T_int(), npartitions=3)
+        return x.map_partitions(lambda df: df.assign(s=pd.Series(["u%d" % v for v in df.a], index=df.index, dtype=object)))
+
+    uncut = build()
+    want = uncut.compute()
+    want_meta = [str(t) for t in uncut._meta.dtypes]
+    try:
+        q = _cut(build(), case["how"])
+        got = q.compute()
+    except Exception as ex:  # noqa: BLE001
+        return f"cut query raised {type(ex).__name__}: {' '.join(str(ex).split())[:200]}"
+    meta = [str(t) for t in q._meta.dtypes]
+    comp = [str(t) for t in got.dtypes]
+    if meta != want_meta:
+        return f"declared schema differs from the uncut query: {meta} vs {want_meta}"
+    if comp != [str(t) for t in want.dtypes]:
+        return f"computed dtypes {comp} differ from the uncut query's {[str(t) for t in want.dtypes]} (declared {meta})"
+    if not e2e.same(got, want):
+        return "result differs"
+    return None
+
+
+def _run_chunk(chunk):
+    out = []
+    for case in chunk:
+        try:
+            out.append(run_case(case))
+        except Exception as ex:  # noqa: BLE001
+            out.append(f"harness exception {type(ex).__name__}: {str(ex)[:200]}")
+    return out
+
+
+def _parallel(cases, procs=None):
+    """the cut cases are independent real executions: fork pool (order of results = order of cases)"""
+    import multiprocessing as mp
+    import os
+
+    procs = procs or min(16, os.cpu_count() or 1)
+    if procs <= 1 or len(cases) < 64:
+        return _run_chunk(cases)
+    size = max(8, len(cases) // (procs * 8))
+    chunks = [cases[i: i + size] for i in range(0, len(cases), size)]
+    with mp.get_context("fork").Pool(procs) as pool:
+        res = pool.map(_run_chunk, chunks)
+    return [r for c in res for r in c]
+
+
 def support(ctx, broken):
     sup = Support()
-    for case in _cases(ctx):
-        msg = run_case(case)
+    for how in ("persist", "delayed", "delayed_nv", "delayed_nog", "legacy"):
+        case = {"probe": "object_string_meta", "how": how}
+        msg = run_probe(case)
+        sup.executed += 1
+        sup.count(f"probe:object_string_meta/{how}:{'differs' if msg else 'transparent'}")
+        if msg:
+            sup.failures.append(Failure(sig=dict(_PROBE_SIG, how=how), case=case, detail=msg))  # open finding D97
+    cases = _cases(ctx)
+    for case, msg in zip(cases, _parallel(cases)):
         sup.executed += 1
         sup.count(f"{case['how']}/cut{case['cut']}")
         if len(sup.samples) < 3:
@@ -677,5 +770,5 @@ def support(ctx, broken):
 
 
 def replay(case):
-    msg = run_case(case)
+    msg = run_probe(case) if case.get("probe") else run_case(case)
     return Failure(sig={}, case=case, detail=msg) if msg else None
